@@ -53,9 +53,11 @@ SubB(N, i, d) == IF d = 0 THEN {i} ELSE {i} \cup UNION {SubB(N, N[i].c[j], d - 1
 Subtree(N, i) == SubB(N, i, Len(N))
 
 \* all-descendants order: node, its namespace nodes, its attribute nodes, its children, recursively
-RECURSIVE PreB(_, _, _)
-PreB(N, i, d) == IF d = 0 THEN <<i>>
-                 ELSE <<i>> \o FlattenSeq([j \in 1..Len(N[i].c) |-> PreB(N, N[i].c[j], d - 1)])
+\* (explicit recursion over the child list: a function constructor of recursive calls handed to FlattenSeq is
+\* re-evaluated by TLC on every application, which is exponential in the depth of the tree)
+RECURSIVE PreB(_, _, _), PreKids(_, _, _, _)
+PreB(N, i, d) == IF d = 0 THEN <<i>> ELSE <<i>> \o PreKids(N, N[i].c, 1, d - 1)
+PreKids(N, kids, j, d) == IF j > Len(kids) THEN <<>> ELSE PreB(N, kids[j], d) \o PreKids(N, kids, j + 1, d)
 PreAll(N, i) == PreB(N, i, Len(N))
 PreNorm(N, i) == SelectSeq(PreAll(N, i), LAMBDA x : IsNormal(N, x))
 
